@@ -7,7 +7,7 @@ from props._hist import History, Fail, result_fail, std_replay
 PROP = "C20"
 LEVEL = "other"
 SELFTEST_PARTS = ("num",)
-WALL_BUDGET = {"quick": 1200, "thorough": 9000}
+WALL_BUDGET = {"quick": 3600, "thorough": 14400}
 ACTIONS = ["remote-write", "remote-delete", "local-create", "local-edit", "request-path", "request-id", "unrequest", "listdir", "remote-mkdir", "remote-create-b",
            "unrequest-id", "remote-create-nested", "request-nested", "unrequest-b", "remote-write-b", "unrequest-upload-fault"]
 QUICK_ACTIONS = 10        # the generic quick families draw from the first ten; the last three are exercised by focused families
